@@ -120,13 +120,13 @@ def run(ctx, res):
     for kind, s in cases:
         reqs += [("escape_char", s), ("unescape_char", s), ("escape_string", s), ("unescape_string", s),
                  ("text_via_line", s), ("categories_via_line", [s]), ("categories_via_line", ["x", s, "y"]),
-                 ("direct_safe", s), ("line_safe", s), ("norm", s)]
+                 ("direct_safe", s), ("line_safe", s), ("norm", s), ("cat_items_ok", [s]), ("cat_items_ok", ["x", s, "y"])]
     outs = M.batch(reqs) if M else None
     known = ctx.known
     for i, ((kind, s), row) in enumerate(zip(cases, impl)):
         want = norm_py(s)
         if outs is not None:
-            m_esc, m_unesc, m_escs, m_unescs, m_line, m_cat1, m_cat2, g_direct, g_line, m_norm = outs[10 * i:10 * i + 10]
+            m_esc, m_unesc, m_escs, m_unescs, m_line, m_cat1, m_cat2, g_direct, g_line, m_norm, g_cat1, g_cat2 = outs[12 * i:12 * i + 12]
             res.corr("escape_char", s, row["esc"], m_esc)
             res.corr("unescape_char", s, row["unesc"], m_unesc)
             res.corr("escape_string", s, row["escs"], m_escs)
@@ -139,12 +139,20 @@ def run(ctx, res):
             g_direct = int("\\n" not in s)
             g_line = int(not any(f in s for f in ("\\n", "\\\\", "\\,", "\\;", "%2C", "%3A", "%3B", "%5C")))
             m_line = m_cat1 = m_cat2 = None
+            g_cat1 = g_cat2 = None
         # the property itself on the implementation
         checks = [("direct", row["direct"], want, g_direct, "C07-F1", None),
                   ("line", row["line"], want, g_line, "C07-F2", m_line)]
         comma_free = "," not in s
         g_list1 = g_line and comma_free
         g_list2 = g_line and comma_free and not s.endswith("\\")
+        if g_cat1 is not None:
+            # the guard of theorem C07_categories, evaluated by the extracted model (the Python lines above
+            # are only the fallback without a model); the two must agree
+            if bool(g_cat1) != bool(g_list1) or bool(g_cat2) != bool(g_list2):
+                res.fail("C07 harness: the extracted guard cat_items_ok and its Python reading disagree", s,
+                         observed=[g_cat1, g_cat2], expected=[int(bool(g_list1)), int(bool(g_list2))])
+            g_list1, g_list2 = g_cat1, g_cat2
         checks.append(("cat1", row["cat1"], [want], g_list1, "C07-F3", m_cat1))
         checks.append(("cat2", row["cat2"], ["x", want, "y"], g_list2, "C07-F3", m_cat2))
         for path, got, exp, guard, fid, mval in checks:
@@ -168,6 +176,46 @@ def run(ctx, res):
         res.extra["explorer"] = ex
         res.notes.append("explorer: direct %s, line %s; without guards the counterexample words are %r and %r"
                          % (ex[0], ex[1], ex[2][1:], ex[3][1:]))
+    # ---- lists of several items over the critical alphabet (theorem C07_categories: any length, any number)
+    rng = common.rng_for(ctx.seed, "c07-lists")
+    alpha = ["\\", "n", "N", ";", ",", ":", '"', "%", "2", "C", "\r", "\n", " ", "a", "\u00e9", "\U0001F600"]
+    lists = []
+    for _ in range(4000 if ctx.big else 300 * (1 + ctx.level)):
+        k = rng.choice([1, 2, 2, 3, 4, 6])
+        no_comma = rng.random() < 0.7
+        items = []
+        for _i in range(k):
+            a = [c for c in alpha if not (no_comma and c == ",")]
+            items.append("".join(rng.choice(a) for _j in range(rng.choice([0, 1, 1, 2, 3, 5]))))
+        lists.append(items)
+    got_lists = []
+    for items in lists:
+        try:
+            got_lists.append(via_categories(items))
+        except Exception as e:  # noqa: BLE001
+            got_lists.append(["err", common.exc_class(e)])
+    if M:
+        lreqs = []
+        for items in lists:
+            lreqs += [("categories_via_line", items), ("cat_items_ok", items)]
+        louts = M.batch(lreqs)
+        n_in = 0
+        for i, (items, got) in enumerate(zip(lists, got_lists)):
+            mval, guard = louts[2 * i], louts[2 * i + 1]
+            res.count(("list", tuple(items)), nontrivial=len(items) > 1)
+            res.corr("categories path [list]", items, got, mval)
+            want = [norm_py(x) for x in items]
+            n_in += bool(guard)
+            if got == want:
+                continue
+            if not guard and "C07-F3" in known and got == mval:
+                res.known("C07-F3", {"path": "list", "items": items, "got": got, "want": want}, known["C07-F3"]["summary"])
+            else:
+                res.fail("C07 categories: items read back differ from the normalised items"
+                         + (" (inside the guard of C07_categories)" if guard else " (outside the guard, not as the model predicts)"),
+                         items, observed=got, expected=want)
+        res.dist("lists inside cat_items_ok", n_in)
+        res.dist("lists outside cat_items_ok", len(lists) - n_in)
     # category lists with repeated entries (order and multiplicity must survive)
     for items in (["work", "errand", "family", "work", "home"], ["a", "a"], ["b", "a", "b", "c", "a"], ["x", "", "x"]):
         res.evaluations += 1
